@@ -3,5 +3,6 @@ CONSTANTS
   MaxLen = 4
   Tok = {"+","-","*","/","%","@","=","^",".undef","$T0","$eip","$esp","$ebp","$ebx","$edi","$esi",".raSearch",".raSearchStart",".cbLocals",".cbParams",".cbCalleeParams",".cbSavedRegs","l4","lm1","l8","l0","l3","lmin","=l4","$nope","lbig","junk"}
   InstIds = {"normal","noebx","grand","espwrap","bigloc","ebpwrap","lowesp"}
+  Prefixes <- PrefixesAll
 INVARIANTS TypeOK OnlyOuts NoImplicit Emit
 CHECK_DEADLOCK FALSE
